@@ -435,4 +435,194 @@ def memPair (a b : Name) : List (Name × Name) → Bool
 
 def subsetPairs (a b : List (Name × Name)) : Bool := a.all fun x => memPair x.1 x.2 b
 
+/-! ### full signatures: callbacks, declared restypes, foreign call sites -/
+
+structure Proto where
+  name : Name
+  ret : Kind
+  args : List Kind
+  deriving Repr, Inhabited
+
+/-- a callback member: (owner structure / class, member / field, return kind, argument kinds) -/
+structure Callback where
+  owner : Name
+  field : Name
+  ret : Kind
+  args : List Kind
+  deriving Repr, Inhabited
+
+/-- `clibrebound.f.restype = T` somewhere in the package -/
+structure RestypeDecl where
+  fn : Name
+  site : Name
+  kind : Kind
+  hint : Nat          -- position of the function's prototype in the table (checked, not trusted)
+  deriving Repr, Inhabited
+
+/-- a call `clibrebound.f(args)`: `restype` is the declaration in force at the site (made at import time or
+    earlier in the same function), `used` whether the returned value is consumed, argument kinds as far as
+    the expression shows them (`.opaque` = not statically known) -/
+structure CallSite where
+  fn : Name
+  site : Name
+  used : Bool
+  restype : Option Kind
+  args : List Kind
+  star : Bool
+  hint : Nat          -- position of the function's prototype in the table (checked, not trusted)
+  deriving Repr, Inhabited
+
+def argsOk (cm : ClassMap) : List Kind → List Kind → Bool
+  | [], [] => true
+  | c :: cs, p :: ps => kindOk cm c p && argsOk cm cs ps
+  | _, _ => false
+
+def nth {α : Type} : Nat → List α → Option α
+  | _, [] => none
+  | 0, x :: _ => some x
+  | i + 1, _ :: r => nth i r
+
+/-- the prototype of function `n`: the generator says where it is, the name is compared here
+    (a linear search by name over 320 prototypes for each of 200 rows costs the kernel 25 s and 2 GB) -/
+def protoAt (i : Nat) (n : Name) (protos : List Proto) : Option Proto :=
+  match nth i protos with
+  | some p => if nameEq p.name n then some p else none
+  | none => none
+
+def findCallback (o f : Name) : List Callback → Option Callback
+  | [] => none
+  | c :: r => if nameEq c.owner o && nameEq c.field f then some c else findCallback o f r
+
+/-- the CFUNCTYPE of a callback field has the return kind, the number and the kinds of arguments of the C member it lies over -/
+def callbackOk (t : Tables) (ccbs : List Callback) (p : Callback) : Bool :=
+  match structOf t.cm p.owner, pairedMember t p.owner p.field with
+  | some s, some m =>
+    match findCallback s m ccbs with
+    | some c => kindOk t.cm c.ret p.ret && argsOk t.cm c.args p.args
+    | none => false
+  | _, _ => false
+
+/-- what ctypes assumes when no restype is declared: a C `int` -/
+def retDefaultOk : Kind → Bool
+  | .void => true
+  | .int s n => s && n == 4
+  | .enm _ s n => s && n == 4
+  | _ => false
+
+def declOk (cm : ClassMap) (protos : List Proto) (d : RestypeDecl) : Bool :=
+  match protoAt d.hint d.fn protos with
+  | some p => kindOk cm p.ret d.kind
+  | none => false
+
+def isOpaque : Kind → Bool
+  | .opaque _ => true
+  | _ => false
+
+/-- an argument as written at a call site against the C parameter: statically unknown expressions pass;
+    integers must have the parameter's width (ctypes passes the bits, signedness is the callee's reading) -/
+def callArgOk (cm : ClassMap) (c p : Kind) : Bool :=
+  isOpaque p || kindOk cm c p ||
+  match c, p with
+  | .int _ n, .int _ n' => n == n'
+  | _, _ => false
+
+def isVariadic : List Kind → Bool
+  | [] => false
+  | [k] => isOpaque k
+  | _ :: r => isVariadic r
+
+def callArgsOk (cm : ClassMap) : List Kind → List Kind → Bool
+  | [], [] => true
+  | [c], ps => if isOpaque c then true else match ps with
+      | [p] => callArgOk cm c p
+      | _ => false
+  | c :: cs, p :: ps => callArgOk cm c p && callArgsOk cm cs ps
+  | _, _ => false
+
+/-- category of a call-site disagreement -/
+inductive CallWhy where
+  | noProto | restype | noRestype | args
+  deriving Repr, Inhabited, DecidableEq
+
+def CallWhy.str : CallWhy → String
+  | .noProto => "no-prototype" | .restype => "restype" | .noRestype => "no-restype" | .args => "arguments"
+
+def callWhy (cm : ClassMap) (protos : List Proto) (c : CallSite) : Option CallWhy :=
+  match protoAt c.hint c.fn protos with
+  | none => some .noProto
+  | some p =>
+    match c.restype with
+    | some r => if !kindOk cm p.ret r then some .restype
+                else if c.star || callArgsOk cm p.args c.args then none else some .args
+    | none => if c.used && !retDefaultOk p.ret then some .noRestype
+              else if c.star || callArgsOk cm p.args c.args then none else some .args
+
+/-- (function, site) of every call that is not sound -/
+def badCalls (cm : ClassMap) (protos : List Proto) : List CallSite → List (Name × Name)
+  | [] => []
+  | c :: r => match callWhy cm protos c with
+    | none => badCalls cm protos r
+    | some _ => (c.fn, c.site) :: badCalls cm protos r
+
+/-! ### binary field descriptors and binary warnings -/
+
+/-- (type id, dtype, name, offset, offset_N, element_size) -/
+abbrev DescrRow := Nat × Int × Name × Nat × Nat × Nat
+
+def descrEq (a b : DescrRow) : Bool :=
+  a.1 == b.1 && a.2.1 == b.2.1 && nameEq a.2.2.1 b.2.2.1 && a.2.2.2.1 == b.2.2.2.1 &&
+  a.2.2.2.2.1 == b.2.2.2.2.1 && a.2.2.2.2.2 == b.2.2.2.2.2
+
+def descrListEq : List DescrRow → List DescrRow → Bool
+  | [], [] => true
+  | a :: r, b :: r' => descrEq a b && descrListEq r r'
+  | _, _ => false
+
+def lastName : List DescrRow → Name
+  | [] => []
+  | [a] => a.2.2.1
+  | _ :: r => lastName r
+
+def isPrefixName : Name → Name → Bool
+  | [], _ => true
+  | _ :: _, [] => false
+  | a :: p, b :: s => Nat.beq a b && isPrefixName p s
+
+def isInfixName (p : Name) : Name → Bool
+  | [] => p.isEmpty
+  | c :: s => isPrefixName p (c :: s) || isInfixName p s
+
+def lowerName (n : Name) : Name := n.map lower
+
+/-- a row of BINARY_WARNINGS against the C enumeration of binary error codes: exactly one enumerator has that value;
+    it is an `…_ERROR_…` enumerator iff Python treats the code as a major error; the message contains the phrase
+    committed for that enumerator -/
+def warnOk (es : List (Name × Int)) (kw : List (Name × Name)) (w : Bool × Int × Name) : Bool :=
+  match es.filter (fun e => e.2 == w.2.1) with
+  | [e] => (isInfixName n!"_ERROR_" e.1 == w.1) && (isInfixName n!"_WARNING_" e.1 == !w.1) &&
+           (match lookup e.1 kw with
+            | some k => isInfixName k (lowerName w.2.2)
+            | none => false)
+  | _ => false
+
+/-- the field `p` of kind int can hold the value `v` -/
+def representable (k : Kind) (v : Int) : Bool :=
+  match k with
+  | .int true n => -(2 : Int) ^ (8 * n - 1) ≤ v && v < (2 : Int) ^ (8 * n - 1)
+  | .int false n => 0 ≤ v && v < (2 : Int) ^ (8 * n)
+  | _ => false
+
+/-- every enumerator of the C enumeration a ctypes field lies over is a value of the ctypes integer type -/
+def enumFieldOk (enums : List (Name × Name × Int)) (pr : Field × List Field) : Bool :=
+  match pr.2 with
+  | [c] => match c.kind with
+    | .enm e _ _ => (itemsOf e enums).all (fun it => representable pr.1.kind it.2) && !(itemsOf e enums).isEmpty
+    | _ => true
+  | _ => true
+
+def classEnumFieldsOk (t : Tables) (enums : List (Name × Name × Int)) (e : Name × Name × Bool) : Bool :=
+  match pairUp (fieldsOf e.1 t.py) (fieldsOf e.2.1 t.c) with
+  | none => false
+  | some (prs, _) => prs.all (enumFieldOk enums)
+
 end RV.Layout
